@@ -6,6 +6,8 @@ open Qfx
 
 structure CodecSt where
   m : Message
+  /-- the copy taken by `fork`, kept aside while `m` goes on being edited -/
+  side : Option Message := none
   tdefs : List (String × (List Tag × List Tag))
   adefs : List (String × List (Bytes × List DNode))
   deriving Inhabited
@@ -152,7 +154,7 @@ def doParse (st : CodecSt) (mode : String) (w : Bytes) : CodecSt × String :=
 def codecStep (st : CodecSt) (w : List String) : CodecSt × String :=
   let fx := Fixes.cur
   match w with
-  | ["new"] => ({ st with m := Message.new }, "ok")
+  | ["new"] => ({ st with m := Message.new, side := none }, "ok")
   | [k, s, t, v] =>
     (match secOf? s, t.toInt? with
      | some s, some t =>
@@ -196,6 +198,19 @@ def codecStep (st : CodecSt) (w : List String) : CodecSt × String :=
      | some s, some (.grp t tm es, []) => resMsg st (st.m.setGroup s t tm es)
      | _, _ => (st, "bad-op"))
   | ["copy"] => resMsg st (st.m.copy fx)
+  | ["fork"] =>
+    (match st.m.copy fx with
+     | .ok c => ({ st with side := some c }, "ok")
+     | .err _ => (st, "err")
+     | .fault _ => (st, "panic"))
+  | ["sidebuild"] =>
+    (match st.side with
+     | none => (st, "none")
+     | some c =>
+       match c.bytes fx with
+       | .ok (b, c') => ({ st with side := some c' }, s!"bytes {toHex b} wf:{yn (Spec.wireWF b)}")
+       | .err _ => (st, "err")
+       | .fault _ => (st, "panic"))
   | [k] =>
     if k = "build" ∨ k = "bytes" then
       (match st.m.bytes fx with
